@@ -16,6 +16,7 @@ import (
 	"math/rand"
 	"os"
 	"runtime"
+	"sort"
 	"strconv"
 	"strings"
 	"sync"
@@ -203,6 +204,8 @@ func execute(run *Run, choose func(step int, rel []int) int, events *[]Event) *e
 			kind := "other"
 			if strings.Contains(st, "sync.(*WaitGroup).Wait") {
 				kind = "WaitGroup.Wait"
+			} else if k := blockedInMap(); k != "other" {
+				kind = k
 			}
 			res.Stall = fmt.Sprintf("goroutine %d released from gate %q did not reach its next gate (blocked in %s; placeholder done=%v)",
 				p+1, g.point, kind, doneObjs[g.obj])
@@ -346,7 +349,32 @@ func compareExpect(run *Run, res *execResult, events []Event) {
 
 // freeRun: no gating, real concurrency. Events are stamped with a global atomic sequence number: the call stamp is
 // taken before the invocation and the ret stamp after the return, so the logged order only widens intervals.
-func freeRun(run *Run, rng *rand.Rand, events *[]Event) {
+// blockedInMap describes the goroutines that are parked inside a method of the map (whatever primitive they wait on)
+func blockedInMap() string {
+	buf := make([]byte, 1<<18)
+	n := runtime.Stack(buf, true)
+	var kinds []string
+	for _, g := range strings.Split(string(buf[:n]), "\n\n") {
+		if !strings.Contains(g, "lazymap.(*LazySyncMap)") {
+			continue
+		}
+		head, _, _ := strings.Cut(g, "\n")
+		if i := strings.Index(head, "["); i >= 0 && !strings.Contains(head, "[running") && !strings.Contains(head, "[runnable") {
+			kind := strings.Trim(head[i:], "[]:")
+			if strings.Contains(g, "sync.(*WaitGroup).Wait") {
+				kind = "WaitGroup.Wait"
+			}
+			kinds = append(kinds, kind)
+		}
+	}
+	if len(kinds) == 0 {
+		return "other"
+	}
+	sort.Strings(kinds)
+	return "LazySyncMap: " + strings.Join(kinds, ", ")
+}
+
+func freeRun(run *Run, rng *rand.Rand, events *[]Event) (stall string) {
 	m := new(lazymap.LazySyncMap)
 	var seq int64
 	var mu sync.Mutex
@@ -396,7 +424,14 @@ func freeRun(run *Run, rng *rand.Rand, events *[]Event) {
 		}(p, run.Prog[p])
 	}
 	close(start)
-	wg.Wait()
+	finished := make(chan struct{})
+	go func() { wg.Wait(); close(finished) }()
+	select {
+	case <-finished:
+	case <-time.After(2 * stallTimeout):
+		// some caller never came back: the goroutines stay parked (they are abandoned), the execution is reported
+		return "free-running callers never returned (blocked in " + blockedInMap() + ")"
+	}
 	*events = append(*events, Event{"ev": "reset", "run": run.Id})
 	// stamps are unique and increasing; sort by stamp
 	out := make([]Event, len(evs))
@@ -420,6 +455,7 @@ func freeRun(run *Run, rng *rand.Rand, events *[]Event) {
 		v, ok := m.Load(k)
 		*events = append(*events, retEvent(0, v, ok))
 	}
+	return ""
 }
 
 func main() {
@@ -518,8 +554,14 @@ func main() {
 				var events []Event
 				r2 := *run
 				r2.Id = fmt.Sprintf("%s#%d", run.Id, n)
-				freeRun(&r2, rng, &events)
-				flush(&execResult{Id: r2.Id, Mode: "free", Prog: run.Prog}, events)
+				st := freeRun(&r2, rng, &events)
+				if st != "" {
+					events = nil
+				}
+				flush(&execResult{Id: r2.Id, Mode: "free", Prog: run.Prog, Stall: st}, events)
+				if st != "" {
+					break
+				}
 			}
 		}
 	}
